@@ -174,6 +174,18 @@ func scenarios(tier string) []Scn {
 		}
 	}
 	for _, v := range []string{"sack", "sackstrict"} {
+		// the target acknowledges a probe WITHOUT selective-acknowledgement blocks while later probes are still going out:
+		// the receiver's give-up path (whatever it reports about the run so far) runs against the sender's bookkeeping
+		for _, d := range []int{1, 2} {
+			sc := proto.Scn{Variant: v, First: 1, Last: 6, Dest: d, TimeoutMs: 200, DelayMs: 10, IPIDBase: 1400, EchoBase: 140}
+			sc.Hops = map[int]proto.HopSpec{}
+			for t := d; t <= 6; t++ {
+				sc.Hops[t] = proto.HopSpec{AtTarget: true, Form: "plainack", DelayUs: 9995}
+			}
+			out = append(out, Scn{Kind: "proto", Items: []proto.Scn{sc}, Bound: b, Name: fmt.Sprintf("%s/acknowledgement-without-blocks-while-sending/dest-%d", v, d)})
+		}
+	}
+	for _, v := range []string{"sack", "sackstrict"} {
 		// the target retransmits its SYN-ACK while the probes are going out (it passes the tuple filter): whatever the
 		// receiver does with it must not touch what the sender reads
 		for _, ms := range []int{5, 15, 25} {
